@@ -40,6 +40,55 @@ type PmScn struct {
 	// GETPORT/GETADDR at the same time under the seeded scheduler
 	Mut     []PmOp   `json:"mut,omitempty"`
 	Readers [][]PmOp `json:"readers,omitempty"`
+	// second mutator (also loopback): the two SET/UNSET streams overlap; the final registry must then be what
+	// some interleaving of the two streams (each in its own order) leaves behind
+	Mut2 []PmOp `json:"mut2,omitempty"`
+}
+
+// pmApply applies one SET/UNSET to a registry model.
+func pmApply(m map[pmKey]uint32, op PmOp) {
+	k := pmKey{op.Prog, op.PVers, op.Prot}
+	if op.Proc == 1 {
+		if _, exists := m[k]; !exists && op.Port != 0 {
+			m[k] = op.Port
+		} else if exists {
+			m[k] = op.Port
+		}
+	} else {
+		delete(m, k)
+	}
+}
+
+// pmFinals enumerates the registries that interleavings of a and b (each in order) can leave behind.
+func pmFinals(init map[pmKey]uint32, a, b []PmOp, visit func(map[pmKey]uint32) bool) bool {
+	var rec func(m map[pmKey]uint32, i, j int) bool
+	rec = func(m map[pmKey]uint32, i, j int) bool {
+		if i == len(a) && j == len(b) {
+			return visit(m)
+		}
+		if i < len(a) {
+			c := map[pmKey]uint32{}
+			for k, v := range m {
+				c[k] = v
+			}
+			pmApply(c, a[i])
+			if rec(c, i+1, j) {
+				return true
+			}
+		}
+		if j < len(b) {
+			c := map[pmKey]uint32{}
+			for k, v := range m {
+				c[k] = v
+			}
+			pmApply(c, b[j])
+			if rec(c, i, j+1) {
+				return true
+			}
+		}
+		return false
+	}
+	return rec(init, 0, 0)
 }
 
 // pmState is one state the registry held: possibly visible from the call of the mutation that made it
@@ -73,10 +122,71 @@ func pmDecodeDump(vers uint32, v any) map[pmKey]uint32 {
 	return got
 }
 
+// runPortmapTwoMutators: two loopback clients SET/UNSET at the same time (through different protocol versions).
+func runPortmapTwoMutators(o *Outcome, sc *PmScn, pm *absnfs.Portmapper, w *World, port int) {
+	init := map[pmKey]uint32{}
+	for _, m := range pm.GetMappings() {
+		init[pmKey{m.Program, m.Version, m.Protocol}] = m.Port
+	}
+	done := make(chan int, 2)
+	for mi, ops := range [][]PmOp{sc.Mut, sc.Mut2} {
+		mi, ops := mi, ops
+		simrt.Go(fmt.Sprintf("pm-mutator-%d", mi), func() {
+			defer simrt.Send("pm.done", done, mi)
+			cl, err := w.DialPort(port, pmAddrs[mi], Cred{}, nil) // 127.0.0.1 and [::1]
+			if err != nil {
+				return
+			}
+			defer cl.Close()
+			for _, op := range ops {
+				var args []byte
+				if op.Vers == 2 {
+					args = nfsclient.ArgsMapping(nfsclient.Mapping{Prog: op.Prog, Vers: op.PVers, Prot: op.Prot, Port: op.Port})
+				} else {
+					netid := "tcp"
+					if op.Prot == 17 {
+						netid = "udp"
+					}
+					args = nfsclient.ArgsRpcb(nfsclient.RpcbEntry{Prog: op.Prog, Vers: op.PVers, Netid: netid, Addr: nfsclient.UAddr("127.0.0.1", op.Port), Owner: "sim"})
+				}
+				if _, err := cl.RawCall(nfsclient.ProgPortmap, op.Vers, op.Proc, args); err != nil {
+					o.Vio("C27.no-reply", fmt.Sprintf("vers=%d,proc=%d,concurrent", op.Vers, op.Proc), "mutator %d: %v", mi, err)
+					return
+				}
+			}
+		})
+	}
+	simrt.Recv("pm.wait", done)
+	simrt.Recv("pm.wait", done)
+	final := map[pmKey]uint32{}
+	for _, m := range pm.GetMappings() {
+		final[pmKey{m.Program, m.Version, m.Protocol}] = m.Port
+	}
+	o.Tick()
+	same := func(a map[pmKey]uint32) bool {
+		if len(a) != len(final) {
+			return false
+		}
+		for k, v := range a {
+			if final[k] != v {
+				return false
+			}
+		}
+		return true
+	}
+	if !pmFinals(init, sc.Mut, sc.Mut2, same) {
+		o.Vio("C27.registry-of-no-interleaving", "", "two loopback clients issued %d and %d SET/UNSET calls at the same time; the registry afterwards %v is what no interleaving of the two streams leaves behind (started from %v)", len(sc.Mut), len(sc.Mut2), pmKeys(final), pmKeys(init))
+	}
+}
+
 // runPortmapConcurrent: every DUMP reply must be a set of mappings the registry held at some instant
 // between the call and its reply (never a mixture of two states, an entry twice, or an entry dropped).
 func runPortmapConcurrent(o *Outcome, sc *PmScn, pm *absnfs.Portmapper, w *World, port int) {
-	o.NonTrivial = len(sc.Mut) > 0 && len(sc.Readers) > 0
+	o.NonTrivial = len(sc.Mut) > 0 && (len(sc.Readers) > 0 || len(sc.Mut2) > 0)
+	if len(sc.Mut2) > 0 {
+		runPortmapTwoMutators(o, sc, pm, w, port)
+		return
+	}
 	snap := func() map[pmKey]uint32 {
 		out := map[pmKey]uint32{}
 		for _, m := range pm.GetMappings() {
@@ -457,6 +567,24 @@ func genC27(r *simrt.Rand, tier string) any {
 			k := pmKey{progs[r.Int(3)], uint32(1 + r.Int(3)), []uint32{6, 17}[r.Int(2)]}
 			have = append(have, k)
 			sc.Mut = append(sc.Mut, PmOp{Vers: 2, Proc: 1, Prog: k.prog, PVers: k.vers, Prot: k.prot, Port: uint32(1 + r.Int(65535))})
+		}
+		if r.Pct(30) {
+			// two mutators instead of readers: short streams over few keys, through v2 and v3/v4
+			sc.Mut, sc.Readers = nil, nil
+			keys := []pmKey{{100003, 3, 6}, {100003, 3, 17}, {100005, 3, 6}, {100000, 2, 6}, {100000, 2, 17}}
+			for mi := 0; mi < 2; mi++ {
+				var ops []PmOp
+				for i, n := 0, 1+r.Int(4); i < n; i++ {
+					k := keys[r.Int(len(keys))]
+					ops = append(ops, PmOp{Vers: []uint32{2, 3, 4}[r.Int(3)], Proc: uint32(1 + r.Int(2)), Prog: k.prog, PVers: k.vers, Prot: k.prot, Port: uint32(1000 + r.Int(5))})
+				}
+				if mi == 0 {
+					sc.Mut = ops
+				} else {
+					sc.Mut2 = ops
+				}
+			}
+			return sc
 		}
 		for rd, nrd := 0, 1+r.Int(3); rd < nrd; rd++ {
 			var ops []PmOp
@@ -1170,7 +1298,7 @@ func (zeroReader) Read(p []byte) (int, error) {
 
 func init() {
 	Register(&Prop{ID: "C27", Level: "exploration",
-		Rule: "one case = 5-30 portmap v2 / rpcbind v3,v4 calls (NULL, SET, UNSET, GETPORT/GETADDR, DUMP, unknown versions, unknown procedures, foreign program numbers) from 8 client addresses (IPv4/IPv6 loopback, IPv4-mapped, private and global addresses) over the simulated network against a Portmapper started through its listen seam, transport segmentation on alternate connections, sequential or (30%) under the random scheduler, or (20% of cases) concurrently: one loopback client issues 4-11 SET/UNSET calls while 1-3 other clients issue DUMP (v2, v3, v4) and GETPORT/GETADDR calls under the seeded scheduler - every DUMP reply must then be a set of mappings the registry held at some instant between the call and its reply; oracle: every reply strictly decodes (RFC 1831 + RFC 1833 result types), GETPORT/GETADDR/DUMP equal a map model of (prog,vers,prot)->port, SET/UNSET from loopback update it, and the registry (read through GetMappings before and after every call) never changes for a non-loopback client in any protocol version; non-trivial = at least one call; distinct by event digest",
+		Rule: "one case = 5-30 portmap v2 / rpcbind v3,v4 calls (NULL, SET, UNSET, GETPORT/GETADDR, DUMP, unknown versions, unknown procedures, foreign program numbers) from 8 client addresses (IPv4/IPv6 loopback, IPv4-mapped, private and global addresses) over the simulated network against a Portmapper started through its listen seam, transport segmentation on alternate connections, sequential or (30%) under the random scheduler, or (20% of cases) concurrently: one loopback client issues 4-11 SET/UNSET calls while 1-3 other clients issue DUMP (v2, v3, v4) and GETPORT/GETADDR calls under the seeded scheduler - every DUMP reply must then be a set of mappings the registry held at some instant between the call and its reply (in 30% of the concurrent cases two loopback clients SET/UNSET at the same time instead, and the registry afterwards must be what some interleaving of the two streams leaves behind); oracle: every reply strictly decodes (RFC 1831 + RFC 1833 result types), GETPORT/GETADDR/DUMP equal a map model of (prog,vers,prot)->port, SET/UNSET from loopback update it, and the registry (read through GetMappings before and after every call) never changes for a non-loopback client in any protocol version; non-trivial = at least one call; distinct by event digest",
 		Gen:  genC27, New: func() any { return &PmScn{} }, Run: runPortmap, Shrink: shrinkPm,
 		Real:    []string{"Portmapper (StartOnPort, accept loop, connection handler, handleCall, all v2/v3/v4 procedures, Stop)", "record marking"},
 		Stubbed: []string{"kernel TCP (simnet)", "clock", "scheduler", "sync primitives"}})
